@@ -312,7 +312,7 @@ def compare_ret(st, ret):
         if exp not in ([], None, {}):
             raise Mismatch("return", None, "expected a value", "binding returned nothing")
         return
-    kind, val = ret
+    kind, val = ret[0], ret[1]
     if kind == "ln":
         cmp_lin("return", np.asarray(val), to_float(exp["ln"]))
     elif kind == "exp":
@@ -320,7 +320,7 @@ def compare_ret(st, ret):
     elif kind == "lin":
         cmp_lin("return", np.asarray(val), to_float(exp["v"]))
     elif kind == "custom":
-        val(exp)
+        ret[2](val, exp)
     else:  # pragma: no cover
         raise KeyError(kind)
 
@@ -331,13 +331,53 @@ def compare_ret(st, ret):
 OPERAND_KEYS = ("i", "j", "k")
 
 
+# steps that are never wrapped in jit: they patch globals / run python-side statistics / are no library call
+NOJIT = {"Nop", "Sample", "NewTrunc", "TruncIntegrate", "TruncCall", "TruncGetDensity", "TruncStat"}
+
+
 class Replayer:
-    def __init__(self):
+    """mode: "eager" - plain calls;
+             "jit"   - every step is executed as jax.jit(step)(operand objects): the operands enter the jitted
+                       function as pytree arguments and the result / mutated operands / returned arrays leave it."""
+
+    def __init__(self, mode="eager"):
+        self.mode = mode
         self.heap = {}
         self.expect = {}
         self.flags = {}
         self.calls = 0
         self.counters = {}
+
+    def call(self, fn, st):
+        if self.mode != "jit" or st["act"] in NOJIT:
+            return fn(self, st)
+        ids = [st["a"][k] for k in OPERAND_KEYS if isinstance(st["a"].get(k), int) and st["a"][k] in self.heap]
+        ops = {i: self.heap[i] for i in ids}
+        box = {}
+
+        def g(ops_in):
+            saved = {i: self.heap[i] for i in ops_in}
+            self.heap.update(ops_in)
+            try:
+                new, ret = fn(self, st)
+                after = {i: self.heap[i] for i in ops_in}     # operands as left by the call (caches filled, mutated)
+            finally:
+                self.heap.update(saved)
+            val = None
+            if ret is not None:
+                box["kind"] = ret[0]
+                box["chk"] = ret[2] if len(ret) > 2 else None
+                val = ret[1]
+            return after, new, val
+
+        after, new, val = jax.jit(g)(ops)
+        self.count("jit_steps")
+        self.heap.update(after)
+        if "kind" not in box:
+            return new, None
+        if box["kind"] == "custom":
+            return new, ("custom", val, box["chk"])
+        return new, (box["kind"], val)
 
     def count(self, name, n=1):
         self.counters[name] = self.counters.get(name, 0) + n
@@ -372,7 +412,7 @@ class Replayer:
                 fn = BINDINGS[st["act"]]
                 exp_raise = st["a"].get("raises")
                 try:
-                    new, ret = fn(self, st)
+                    new, ret = self.call(fn, st)
                     self.calls += 1
                 except Mismatch:
                     raise
@@ -414,4 +454,4 @@ class Replayer:
         return None
 
 
-from . import bindings_cond, bindings_trunc  # noqa: E402,F401  (register the remaining bindings)
+from . import bindings_cond, bindings_trunc, bindings_sample  # noqa: E402,F401  (register the remaining bindings)
